@@ -74,3 +74,23 @@ def mc_predict(c, wd, tier):
     if tlc("Predict", cfg, os.path.join(wd, "predict_neg"), coverage=False, timeout=3000, workers=12)["ok"]:
         raise ToolError("Predict.tla does not find the one-sided pending match in the negative configuration")
     c.note("negative model (analyser keeps a deferred match across a block boundary) violates ProtocolSync as expected")
+    # the same obligation for the concrete matcher of Match.tla: every plaintext, every valid parse
+    mm = {"N": 9 if tier == "quick" else 11, "Alphabet": "{97, 98}", "Asym": "FALSE"}
+    r = mc("MC_Match", os.path.join(wd, "mc_match"), constants=mm, invariants=["Restored", "PredictionValid", "PendingValid"],
+           must_cover=["Step"], timeout=14000, workers=12)
+    c.add_model(r, "concrete matcher (Match.tla): every plaintext of <= %s bytes over two letters, every valid LZ77 parse, 7 "
+                   "parameter vectors over 5 hash functions: what the reconstructor decodes is what the analyser saw" % mm["N"])
+    if tier != "quick":
+        r = mc("MC_Match", os.path.join(wd, "mc_match3"), constants=dict(mm, N=8, Alphabet="{97, 98, 99}"),
+               invariants=["Restored", "PredictionValid", "PendingValid"], timeout=14000, workers=12)
+        c.add_model(r, "concrete matcher, plaintexts of <= 8 bytes over three letters")
+    for probe in ("ProbeRejected", "ProbeDone"):
+        cfg = os.path.join(wd, "mc_match_%s.cfg" % probe)
+        write_cfg(cfg, constants=dict(mm, N=7), invariants=[probe])
+        if tlc("MC_Match", cfg, os.path.join(wd, "mc_match_probe"), coverage=False, timeout=3000, workers=4)["ok"]:
+            raise ToolError("vacuity: MC_Match never reaches the state %s excludes" % probe)
+    cfg = os.path.join(wd, "mc_match_neg.cfg")
+    write_cfg(cfg, constants=dict(mm, N=8, Asym="TRUE"), invariants=["Restored"])
+    if tlc("MC_Match", cfg, os.path.join(wd, "mc_match_neg"), coverage=False, timeout=3000, workers=8)["ok"]:
+        raise ToolError("MC_Match does not find the one-sided 3-byte table in the negative configuration")
+    c.note("negative model (reconstructor without libdeflate's 3-byte table) violates Restored as expected")
